@@ -84,6 +84,29 @@ def facts(c):
     b2 += "".join(f"def {k[0].lower() + k[1:]} : Nat := {rt[k]}\n" for k in rt)
     b2 += "end CGV.Gen\n"
     c.write_generated("SelectorConsts", b2)
+    # read-ts validation: the command enumeration and the table of Request.GetStartTS (which field of which request it reads)
+    tc = c.facts_raw(["typedconsts", os.path.join(vcheck.REPO, "tikvrpc"), "CmdType"])
+    cb = c.facts_raw(["casebodies", os.path.join(vcheck.REPO, "tikvrpc/tikvrpc.go"), "GetStartTS"])
+    if tc is None or cb is None:
+        return False
+    cmds = sorted(((l.split()[0], int(l.split()[1])) for l in tc.splitlines() if l.strip()), key=lambda x: (x[1], x[0]))
+    rows = []
+    for l in cb.splitlines():
+        labels, _, body = l.partition("\t")
+        if labels == "default":
+            continue
+        m = re.match(r"return req\.(\w+)\(\)\.(\w+)\(\)$", body.strip())
+        if not m:
+            c.problems.append(Problem("tie", "facts extractor: Request.GetStartTS case is not `return req.X().GetY()`", [l]))
+            return False
+        for lab in labels.split(","):
+            rows.append((lab.strip(), m.group(1), m.group(2)))
+    b3 = "namespace CGV.Gen\n/-- every constant of type tikvrpc.CmdType (name, value) -/\n"
+    b3 += "def cmdTypes : List (String × Nat) := [\n" + ",\n".join(f'  ("{n}", {v})' for n, v in cmds) + "]\n"
+    b3 += "/-- tikvrpc.Request.GetStartTS: (command, request accessor, getter of the timestamp field) -/\n"
+    b3 += "def startTsTable : List (String × String × String) := [\n" + ",\n".join(f'  ("{a}", "{b}", "{g}")' for a, b, g in rows) + "]\n"
+    b3 += "end CGV.Gen\n"
+    c.write_generated("ValidateConsts", b3)
     return True
 
 
@@ -91,7 +114,7 @@ INPUT_OPS = ("reset", "cfg ", "f ", "go ")
 
 
 def is_input(op):
-    return op == "reset" or op.startswith(INPUT_OPS[1:])
+    return op == "reset" or op.startswith(INPUT_OPS[1:]) or op.startswith("chk-validate ") or op.startswith("valcmds")
 
 
 def triage(c, ops_file, impl_file, model_file, hbin, exe, max_per_sig=2, max_total=14):
@@ -186,7 +209,11 @@ def triage(c, ops_file, impl_file, model_file, hbin, exe, max_per_sig=2, max_tot
                                       shrunk, det + " || first seen: " + " ;; ".join(first_bad[:2])))
 
 
-RULE = ("per case: `reset`, `cfg` (command, read mode, back-off budget, forwarding, label, liveness, slowness, ts validation, seed, "
+RULE = ("validation family: `valcmds` (the binary's CmdType enumeration must equal the regenerated one and every command needs a request "
+        "builder) and one `chk-validate <cmd> <pkg> <ts-like fields> <ts class> <validate> <stale>` case for EVERY command type x "
+        "{valid, ahead of PD, MaxInt64, MaxUint64-1, MaxUint64} x validation on/off x plain/stale: the real sender with a recording "
+        "client and the real pdOracle must answer refused/passed as the Lean spec (shape-based `mustValidate`) says, FAIL "
+        "sent-with-invalid-ts when the client saw a timestamped read whose ts the oracle refuses. Retry family: per case: `reset`, `cfg` (command, read mode, back-off budget, forwarding, label, liveness, slowness, ts validation, seed, "
         "learner, timeout class, busy threshold, caller flags, sync/async entry), `f <fault>` script lines, `go <tail>` (the stores answer "
         "<tail> forever after the script) run the REAL RegionRequestSender over a 3-store mocktikv cluster with a scripted client and "
         "virtualised sleeping; derived lines: `ev send|bump|backoff|result` (observed loop events; the Lean model must accept each one "
